@@ -51,10 +51,10 @@ PARTIALS: dict[str, str] = {
 }
 
 DATA: list[tuple[str, dict[str, Any]]] = [
-    ("M0", {"x": "é€", "a": ["a", "é", "\U0001d11e"]}),
+    ("M0", {"x": "é€", "a": ["a", "éé", "\U0001d11e"]}),
     ("M1", {"x": "\U0001d11eb", "a": [7, "€€"]}),
     ("M2", {}),
-    ("M3", {"x": "é" * 20, "a": ["ab", "ab", "é", 12345]}),
+    ("M3", {"x": "é" * 20, "a": ["ab", "ab", "é€", 12345]}),
 ]
 
 
